@@ -7,7 +7,7 @@
 From Coq Require Import NArith List Bool.
 From Pq Require Import Format.Nested Impl.CAssemble Impl.CAssembleFixed Proofs.NestedProofs Proofs.CAssembleProofs
   Proofs.CAssemblePagesProofs Proofs.NestedMapProofs Proofs.NestedInvProofs
-  Proofs.CAssembleTightProofs Proofs.CAssembleFixedProofs.
+  Proofs.CAssembleTightProofs Proofs.CAssembleFixedProofs Proofs.CAssembleV2Proofs.
 Import ListNotations.
 Open Scope N_scope.
 
@@ -96,6 +96,26 @@ Theorem C15_v2_pages :
     run_v2 false sh (length (concat rowss)) pages = AOk (concat rowss).
 Proof. exact pages_v2_spec. Qed.
 Print Assumptions C15_v2_pages.
+
+(* v2, stated on the whole stream of the chunk: an accepted stream cut into aligned pages that each
+   start with rep = 0 and announce num_rows = their number of rep = 0 entries *)
+Theorem C15_v2_pages_whole :
+  forall (V : Type) (sh : shape) (es : list entry) (vs : list V) (rows : list (row V)) (pages : list (page V * nat)),
+    assemble_spec sh es vs = Some rows ->
+    pages_stream (map fst pages) = (es, vs) ->
+    pages_aligned sh (map fst pages) = true -> forallb (v2_cut_ok V) pages = true ->
+    run_v2 false sh (length rows) pages = AOk rows.
+Proof. exact pages_v2_whole. Qed.
+Print Assumptions C15_v2_pages_whole.
+
+(* and conversely the pages of C15_v2_pages concatenate to an accepted stream with those rows *)
+Theorem C15_v2_pages_stream :
+  forall (V : Type) (sh : shape) (pages : list (page V * nat)) (rowss : list (list (row V))),
+    Forall2 (v2_page_ok V sh) pages rowss ->
+    assemble_spec sh (fst (pages_stream (map fst pages))) (snd (pages_stream (map fst pages)))
+    = Some (concat rowss).
+Proof. exact v2_pages_stream. Qed.
+Print Assumptions C15_v2_pages_stream.
 
 (* MAP, spec: the key and value leaf columns of MAP<required key, optional/required value> are
    shredded like lists; assembling both and pairing the k-th key with the k-th value of the same
@@ -186,3 +206,17 @@ Example C15_nonvacuous :
   pages_stream pages = shred sh rows /\ pages_aligned sh pages = true /\ good_split sh pages = true /\
   run_v1 sh 4 pages = AOk rows.
 Proof. vm_compute. repeat split; reflexivity. Qed.
+
+Example C15_nonvacuous_v2_map :
+  let sh := mkShape true true in
+  let p1 : page N := ([(0,3);(1,2);(0,0)], [5]) in
+  let p2 : page N := ([(0,1);(0,3);(1,3)], [6;7]) in
+  v2_page_ok N sh (p1, 2%nat) [Some [Some 5; None]; None] /\
+  v2_page_ok N sh (p2, 2%nat) [Some []; Some [Some 6; Some 7]] /\
+  forallb (v2_cut_ok N) [(p1, 2%nat); (p2, 2%nat)] = true /\
+  run_v2 false sh 4 [(p1, 2%nat); (p2, 2%nat)] = AOk [Some [Some 5; None]; None; Some []; Some [Some 6; Some 7]] /\
+  let rows : list (map_row N N) := [Some [(1, Some 10); (2, None)]; None; Some []; Some [(3, Some 30)]] in
+  forallb (wf_map_row sh) rows = true /\
+  shred_map sh rows = (([(0,2);(1,2);(0,0);(0,1);(0,2)], [1;2;3]), ([(0,3);(1,2);(0,0);(0,1);(0,3)], [10;30])) /\
+  assemble_map_spec sh (fst (shred_map sh rows)) (snd (shred_map sh rows)) = Some rows.
+Proof. vm_compute. repeat split; try reflexivity; try discriminate. Qed.
